@@ -11,6 +11,7 @@ import (
 	"runtime"
 	"strconv"
 	"strings"
+	"sync"
 
 	task "github.com/go-task/task/v3"
 	taskerrors "github.com/go-task/task/v3/errors"
@@ -46,10 +47,13 @@ type RunOut struct {
 	Deadlock  bool     `json:"deadlock"`
 	Overrun   bool     `json:"overrun"`
 	Unparsed  []string `json:"unparsed,omitempty"`
+	Ambiguous bool     `json:"ambiguous,omitempty"` // a when_changed callee's line had more than one possible call site
 	Schedule  []string `json:"schedule"`
 	Stacks    string   `json:"stacks,omitempty"`
 	Procs     int      `json:"procs"`
 	Steps     int      `json:"steps"`
+	Taken     []int    `json:"-"` // systematic enumeration: choice indices taken / alternatives at each step
+	Width     []int    `json:"-"`
 }
 
 var (
@@ -61,6 +65,8 @@ var (
 	reProbe    = regexp.MustCompile(`^([PD])\|([^|]*)\|(\d+)\|(\d*)(?:\|(\d*))?\n$`)
 	reUpToDate = regexp.MustCompile(`^task: Task "t(\d+):w-\*" is up to date\n$`)
 	reKPath    = regexp.MustCompile(`^K(\d+)v(\d+)(.*)$`)
+	// env variant of a when_changed task: the announced text still holds $E
+	reAnnounceE = regexp.MustCompile(`^task: \[t(\d+):w-\*\] printf '%s\\n' "([PD])\|K\d+v\$E\|(\d+)\|\$E`)
 )
 
 func autoRelease(stream string, data []byte) bool {
@@ -72,12 +78,14 @@ func autoRelease(stream string, data []byte) bool {
 }
 
 type runner struct {
-	p        *Prog
-	ownerOf  map[string][]int // "t:v" -> true path of the activation that executes the when_changed key
-	lastOnG  map[int64][]int  // goroutine -> path of the activation that printed last
-	whenHash map[string]string
-	rootFile string
-	out      *RunOut
+	attributed map[string]bool // call sites (paths) that own a started / platform line
+	ambiguous  bool            // some line of a when_changed callee could not be attributed to one call site
+	p          *Prog
+	ownerOf    map[string][]int // "t:v" -> true path of the activation that executes the when_changed key
+	lastOnG    map[int64][]int  // goroutine -> path of the activation that printed last
+	whenHash   map[string]string
+	rootFile   string
+	out        *RunOut
 }
 
 func parsePath(s string) ([]int, bool) {
@@ -118,14 +126,114 @@ func (r *runner) truePath(tok string) ([]int, bool) {
 
 func atoi(s string) int { n, _ := strconv.Atoi(s); return n }
 
+// nextSite: the first call site of activation c (deps only, or task: calls among the commands in
+// order followed by deferred calls in reverse order) that targets (t, v) and owns no line yet.
+func (r *runner) nextSite(c []int, t, v int, deps bool) ([]int, bool) {
+	tc, vc, ok := r.p.Resolve(c)
+	if !ok {
+		return nil, false
+	}
+	tk := r.p.Tasks[tc]
+	try := func(m int, cl Call) ([]int, bool) {
+		if cl.Task != t || evalVar(vc, cl) != v {
+			return nil, false
+		}
+		site := append(append([]int(nil), c...), m)
+		if r.attributed[pathStr(site)] {
+			return nil, false
+		}
+		return site, true
+	}
+	if deps {
+		for j, d := range tk.Deps {
+			if s, ok := try(j, d); ok {
+				return s, true
+			}
+		}
+		return nil, false
+	}
+	for k, cm := range tk.Cmds {
+		if cm.Kind == "call" {
+			if s, ok := try(len(tk.Deps)+k, *cm.Call); ok {
+				return s, true
+			}
+		}
+	}
+	for k := len(tk.Cmds) - 1; k >= 0; k-- {
+		if cm := tk.Cmds[k]; cm.Kind == "dcall" {
+			if s, ok := try(len(tk.Deps)+k, *cm.Call); ok {
+				return s, true
+			}
+		}
+	}
+	return nil, false
+}
+
+func (r *runner) nextRoot(t, v int) ([]int, bool) {
+	for k, rc := range r.p.Cfg.Roots {
+		if rc.Task == t && rc.Var != nil && *rc.Var == v && !r.attributed[fmt.Sprint(k)] {
+			return []int{k}, true
+		}
+	}
+	return nil, false
+}
+
+// infer attributes a "started" / "not for current platform" line of a when_changed task (whose
+// name carries its key, not its call site) to a call site: a nested call comes from the
+// activation that printed last on the same goroutine or from one of its callers on that
+// goroutine; the first line of a fresh goroutine belongs to a dep of the activation that printed
+// last on the creating goroutine, or to a root call. More than one candidate = not attributed
+// (the case is reported as inconclusive, never judged).
+func (r *runner) infer(ev sched.Event, t, v int) ([]int, bool) {
+	var cands [][]int
+	if last, ok := r.lastOnG[ev.G]; ok {
+		c := last
+		for {
+			if s, ok := r.nextSite(c, t, v, false); ok {
+				cands = append(cands, s)
+			}
+			if len(c) <= 1 {
+				// roots started one after the other share the goroutine of Run
+				if s, ok := r.nextRoot(t, v); ok && !r.p.Cfg.Parallel {
+					cands = append(cands, s)
+				}
+				break
+			}
+			par := c[:len(c)-1]
+			if tp, _, ok := r.p.Resolve(par); ok && c[len(c)-1] < len(r.p.Tasks[tp].Deps) {
+				break // c is a dep: it runs on its own goroutine
+			}
+			c = par
+		}
+	} else if parent, ok := r.lastOnG[ev.PG]; ok {
+		if s, ok := r.nextSite(parent, t, v, true); ok {
+			cands = append(cands, s)
+		}
+	} else if s, ok := r.nextRoot(t, v); ok {
+		cands = append(cands, s)
+	}
+	if len(cands) != 1 {
+		r.ambiguous = true
+		return nil, false
+	}
+	return cands[0], true
+}
+
 func (r *runner) parse(ev sched.Event) (*Ev, bool) {
 	d := ev.Data
 	if m := reStarted.FindStringSubmatch(d); m != nil {
-		path, ok := r.truePath(m[2])
+		t := atoi(m[1])
+		var path []int
+		var ok bool
+		if k := reKPath.FindStringSubmatch(m[2]); k != nil && k[3] == "" {
+			path, ok = r.infer(ev, t, atoi(k[2]))
+		} else {
+			path, ok = r.truePath(m[2])
+		}
 		if !ok {
 			return nil, false
 		}
-		t := atoi(m[1])
+		r.attributed[pathStr(path)] = true
 		if r.p.Tasks[t].Run == "when_changed" {
 			if _, v, ok := r.p.Resolve(path); ok {
 				k := fmt.Sprintf("%d:%d", t, v)
@@ -141,6 +249,13 @@ func (r *runner) parse(ev sched.Event) (*Ev, bool) {
 		return &Ev{Kind: "finished", Path: path}, ok
 	}
 	if m := rePlatform.FindStringSubmatch(d); m != nil {
+		if k := reKPath.FindStringSubmatch(m[2]); k != nil && k[3] == "" {
+			path, ok := r.infer(ev, atoi(m[1]), atoi(k[2]))
+			if ok {
+				r.attributed[pathStr(path)] = true
+			}
+			return &Ev{Kind: "platform", Path: path}, ok
+		}
 		path, ok := r.truePath(m[2])
 		return &Ev{Kind: "platform", Path: path}, ok
 	}
@@ -164,6 +279,20 @@ func (r *runner) parse(ev sched.Event) (*Ev, bool) {
 			return &Ev{Kind: "announce", Path: path, I: atoi(m[4])}, true
 		}
 		return &Ev{Kind: "dannounce", Path: path, I: atoi(m[4])}, true
+	}
+	if m := reAnnounceE.FindStringSubmatch(d); m != nil && ev.Stream == "err" {
+		// printed by the goroutine of the activation itself, whose last line was its own
+		path, ok := r.lastOnG[ev.G]
+		if !ok {
+			return nil, false
+		}
+		if t, _, ok2 := r.p.Resolve(path); !ok2 || t != atoi(m[1]) {
+			return nil, false
+		}
+		if m[2] == "P" {
+			return &Ev{Kind: "announce", Path: path, I: atoi(m[3])}, true
+		}
+		return &Ev{Kind: "dannounce", Path: path, I: atoi(m[3])}, true
 	}
 	if m := reProbe.FindStringSubmatch(d); m != nil && ev.Stream == "out" {
 		path, ok := r.truePath(m[2])
@@ -210,7 +339,7 @@ func classify(err error) (string, string) {
 }
 
 // Execute runs the program on the real Executor under the controlled scheduler.
-func Execute(p *Prog, seed int64, procs int, script []string) (*RunOut, error) {
+func Execute(p *Prog, seed int64, procs int, script []string, prefix []int) (*RunOut, error) {
 	dir, err := os.MkdirTemp("", "vh-exec")
 	if err != nil {
 		return nil, err
@@ -222,7 +351,7 @@ func Execute(p *Prog, seed int64, procs int, script []string) (*RunOut, error) {
 		return nil, err
 	}
 	out := &RunOut{Procs: procs}
-	r := &runner{p: p, ownerOf: map[string][]int{}, lastOnG: map[int64][]int{}, whenHash: map[string]string{}, out: out,
+	r := &runner{attributed: map[string]bool{}, p: p, ownerOf: map[string][]int{}, lastOnG: map[int64][]int{}, whenHash: map[string]string{}, out: out,
 		rootFile: filepath.Join(dir, "Taskfile.yml")}
 
 	// hashes of the when_changed keys (computed on a separate Executor so the run's state is untouched)
@@ -238,7 +367,8 @@ func Execute(p *Prog, seed int64, procs int, script []string) (*RunOut, error) {
 			for v := 0; v < 3; v++ {
 				vars := ast.NewVars()
 				vars.Set("V", ast.Var{Value: fmt.Sprint(v)})
-				ct, err := e0.CompiledTask(&task.Call{Task: fmt.Sprintf("t%d:w-x", i), Vars: vars})
+				// exactly the name and variables every call of this key uses (the hash covers the variables, MATCH included)
+				ct, err := e0.CompiledTask(&task.Call{Task: fmt.Sprintf("t%d:w-K%dv%d", i, i, v), Vars: vars})
 				if err != nil {
 					continue
 				}
@@ -275,8 +405,16 @@ func Execute(p *Prog, seed int64, procs int, script []string) (*RunOut, error) {
 	if script != nil {
 		ch = &sched.ScriptChooser{Labels: script}
 	}
+	var ic *sched.IndexChooser
+	if prefix != nil {
+		ic = &sched.IndexChooser{Prefix: prefix}
+		ch = ic
+	}
 	res := ctl.Run(func() error { return e.Run(context.Background(), calls...) }, ch)
 	out.Deadlock, out.Overrun = res.Deadlock, res.Overrun
+	if ic != nil {
+		out.Taken, out.Width = ic.Taken, ic.Width
+	}
 	if res.Deadlock || res.Overrun {
 		out.Stacks = res.Stacks
 		ctl.ReleaseAll()
@@ -320,9 +458,50 @@ func Execute(p *Prog, seed int64, procs int, script []string) (*RunOut, error) {
 			out.Steps++
 		}
 	}
+	out.Ambiguous = r.ambiguous
 	return out, nil
 }
 
 type devNull struct{}
 
 func (devNull) Write(p []byte) (int, error) { return len(p), nil }
+
+type countLines struct {
+	mu sync.Mutex
+	n  int
+}
+
+func (c *countLines) Write(p []byte) (int, error) {
+	c.mu.Lock()
+	c.n += strings.Count(string(p), "leaf-ran")
+	c.mu.Unlock()
+	return len(p), nil
+}
+
+// Fanout runs (without the scheduler) an acyclic Taskfile whose default task calls one leaf task
+// `calls` times in sequence; it returns the number of leaf executions and the classified result.
+func Fanout(calls int) (int, string, error) {
+	dir, err := os.MkdirTemp("", "vh-fanout")
+	if err != nil {
+		return 0, "", err
+	}
+	defer os.RemoveAll(dir)
+	var cmds []any
+	for i := 0; i < calls; i++ {
+		cmds = append(cmds, map[string]any{"task": "leaf"})
+	}
+	y, _ := yaml.Marshal(map[string]any{"version": "3", "silent": true, "tasks": map[string]any{
+		"default": map[string]any{"cmds": cmds},
+		"leaf":    map[string]any{"cmds": []any{"echo leaf-ran"}},
+	}})
+	if err := os.WriteFile(filepath.Join(dir, "Taskfile.yml"), y, 0o644); err != nil {
+		return 0, "", err
+	}
+	cl := &countLines{}
+	e := task.NewExecutor(task.WithDir(dir), task.WithStdout(cl), task.WithStderr(devNull{}))
+	if err := e.Setup(); err != nil {
+		return 0, "", err
+	}
+	res, _ := classify(e.Run(context.Background(), &task.Call{Task: "default"}))
+	return cl.n, res, nil
+}
